@@ -163,7 +163,9 @@ def run(tier, seed, replay_file):
         jobs.append(("graph-client", graph, ("graph-client", primary, "client", True, 1, None)))
         jobs.append(("graph-server", graph, ("graph-server", primary, "server", True, 1, None)))
         jobs.append(("graph-client-foreign", graph, ("graph-client-foreign", second, "client", False, 1, 400)))
-        jobs.append(("graph-server-foreign", graph, ("graph-server-foreign", second, "server", False, 1, 400)))
+        # always one server with a fallback address: the fallback payload is held while other connections are handled
+        fbcfg = CONFIGS[3] if primary is CONFIGS[0] else CONFIGS[0]
+        jobs.append(("graph-server-foreign", graph, ("graph-server-foreign", fbcfg, "server", False, 1, 400)))
     else:
         for ci, cfg in enumerate(CONFIGS):
             for role in ("client", "server"):
